@@ -80,6 +80,21 @@ def make_classes(m):
                 raise Deferred("deferred")
             yield None
 
+    import importlib
+    InstrLogger = importlib.import_module("netqasm.logging.output").InstrLogger
+
+    class HarnessInstrLogger(InstrLogger):
+        """the real instruction logger; only the hooks the base class leaves to back ends are filled in"""
+
+        @classmethod
+        def _get_qubit_groups(cls):
+            return None
+
+        def _get_node_name(self):
+            return self._executor._name
+
+    Ex.instr_logger_class = HarnessInstrLogger
+
     class Ctrl(QNodeController):
         @classmethod
         def _get_executor_class(cls, flavour=None):
@@ -99,7 +114,7 @@ def reg_txt(r):
 
 
 def op_pid(op):
-    return None if op[0] in ("Reserve", "ResetMem") else (op[1], op[2])
+    return None if op[0] in ("Reserve", "ResetMem", "LogOn") else (op[1], op[2])
 
 
 class World:
@@ -109,6 +124,10 @@ class World:
         self.m = m
         self.Stack, self.Ex, self.Ctrl = classes
         m["shared_memory"].SharedMemoryManager.reset_memories()
+        self.Ex._INSTR_LOGGERS.clear()
+        import netqasm.logging.output as nlo
+        nlo.reset_struct_loggers()
+        self.log_dir = None         # set by the check: scratch directory for instruction logs
         self.ctrls = {}
         self.reserved = set()       # harness's own record: (nd, p) handed out by Reserve, not delivered yet
         self._reserved_before = set()
@@ -244,6 +263,12 @@ class World:
                     self.registered.discard((nd, app))
                     self.expected_reg.discard((nd, app))
                 self._advance(label)
+            elif kind == "LogOn":
+                # an optional collaborator of the executor: from now on a real InstrLogger is called after
+                # every instruction of this node (with the live instruction object; it reads arrays, registers
+                # and unit modules through the executor).  Not an operation of the model.
+                self.last_model_ops = []
+                ex.set_instr_logger(self.log_dir)
             elif kind == "ResetMem":
                 self.m["shared_memory"].SharedMemoryManager.reset_memories()
                 self.expected_reg = set()
